@@ -5,7 +5,7 @@ import json, os, re, sys
 log = sys.argv[1]
 rows = []
 for line in open(log):
-    m = re.match(r"(C\d\d) (m\d) (CAUGHT|MISSED|APPLY-FAILED)(?: :: (.*))?", line)
+    m = re.match(r"(C\d\d) (m\d+) (CAUGHT|MISSED|APPLY-FAILED)(?: :: (.*))?", line)
     if not m:
         continue
     pid, mm, res, rest = m.groups()
